@@ -107,5 +107,24 @@ PROPS["C16"] = {
     "assumptions": ["the JSON text layer (jsoniter lexer, escaping, number formatting) is external: the model's printer/reader covers standard JSON with numbers whose shortest decimal form is exact; other payloads are answered 'unsupported' by the model and judged on the implementation only"],
 }
 
+PROPS["C09"] = {
+    "domains": [{"name": "upd", "n_quick": 800, "n_thorough": 20000},
+                {"name": "typ", "n_quick": 800, "n_thorough": 20000},
+                {"name": "val", "n_quick": 1500, "n_thorough": 30000},
+                {"name": "ser", "n_quick": 800, "n_thorough": 20000}],
+    "lean_modules": ["SMD.Properties.C09", "SMD.Spec.Facts", "SMD.Generated.MapRanges"],
+    "theorems": ["SMD.C09.all_map_ranges_covered"],
+    "assumptions": ["partial: state left in pooled walkers and freelist reuse are runtime matters decided observationally by the repeat-call judges (every op repeated after unrelated, failing and conflicting calls and after GC); the theorem covers the iteration order of every Go map, against a table regenerated from the source on every run"],
+    "explanation": "partial by proof",
+}
+PROPS["C10"] = {
+    "domains": [{"name": "conc", "n_quick": 120, "n_thorough": 3000, "race": True}],
+    "lean_modules": ["SMD.Properties.C10", "SMD.Spec.Facts", "SMD.Generated.SyncFacts"],
+    "theorems": ["SMD.C10.guard_table_admissible"],
+    "assumptions": ["partial: the Go memory model is not modelled; the harness is built with -race and a race report fails the check with the report as replay; the theorem checks the guard context of every access to the shared lazily-initialised fields against a table regenerated from the source on every run"],
+    "explanation": "partial by proof",
+}
+OP_PROPS["conc.round"] = ["C10"]
+
 HOOK_COMMITS = []
 NOT_APPLICABLE = {}
